@@ -10,9 +10,11 @@
                          what the authenticated hash fetch  torchwood.TileHashReaderWithContext(tree, tr)
                          .ReadHashes(StoredHashIndex(0, i) for i in idxs)  returns. The loop of
                          tlog.TileHashReader (fetch the right-edge tiles, recompute the tree hash, verify
-                         every other tile against its parent) is a DEPENDENCY: it is not transcribed, it is
+                         every other tile against its parent) is a DEPENDENCY: in THIS file it is
                          SPECIFIED by [verifying] below (it returns hashes only if they are the hashes the
-                         root commits to) and validated by the tamper stream of harness/client;
+                         root commits to). Client/Reader.v transcribes the loop (both published versions)
+                         for RUNNING the model; harness/client ties it to the real reader. The version
+                         pinned by /repo's go.mod does NOT meet the specification (Properties/C12.v);
      adv_proof n root i  the record proof tlog.ProveRecord assembles from that reader: an arbitrary
                          hash list (it is checked by tlog.CheckRecord, modelled in Merkle/Proofs.v);
      the served checkpoint and the SCT are symbolic values (signatures are symbolic, Dolev-Yao).
@@ -427,11 +429,11 @@ Definition checkpoint (pk : N) (served : option snote) : res (cktext * list sigl
 End Client.
 
 (* ==================================================================================================
-   The fetch plan of tlog.TileHashReader.ReadHashes and the REFERENCE verifying reader used to RUN
-   the model next to the real client (harness/client): it answers with the true hashes iff every
-   hash tile the real reader would fetch is served unmodified. Nothing below is used by a theorem
-   except through [verifying]; that the real reader behaves like this one is what the tamper
-   stream checks.
+   An IDEAL verifying reader (used by the non-vacuity examples of Client/Closed.v, where it is proved
+   to satisfy [verifying]): it knows the true hashes and answers with them iff every hash tile of the
+   fetch plan is served unmodified. The helpers sub_tree_index / leaf_proof_index / clamp_tile are
+   shared with the transcription of the real reader in Client/Reader.v, which is what the model is
+   RUN with next to the implementation.
    ================================================================================================== *)
 
 (* a stored hash: (level, k) = the hash of leaves [k * 2^level, (k+1) * 2^level) *)
